@@ -10,6 +10,11 @@ import "fmt"
 
 type Explorer struct {
 	Bound    int // maximum number of deviations per execution
+	// FreeSwitchCost is the cost of a non-default choice at a point where the running thread cannot
+	// continue (blocked or finished).  0 (default) = such switches are free, as in CHESS-style
+	// preemption bounding; 1 = every departure from the canonical schedule counts, which keeps
+	// programs with many mostly-blocked threads tractable (the bound then limits all deviations).
+	FreeSwitchCost int
 	MaxSteps int
 	MaxExecs int64 // 0 = unlimited
 	Stop     func() bool
@@ -27,7 +32,7 @@ type Explorer struct {
 	Complete   bool
 }
 
-func cost(r *Result, i, alt int) int {
+func (e *Explorer) cost(r *Result, i, alt int) int {
 	// alternative alt (>0) at point i
 	if r.Kinds[i] == 'c' {
 		return 1
@@ -38,7 +43,7 @@ func cost(r *Result, i, alt int) int {
 	if alt == r.ClockAt[i] && r.NProg[i] > 0 {
 		return 1 // a timer lands before an enabled program thread runs
 	}
-	return 0 // the running thread is blocked or finished: choosing who continues is free
+	return e.FreeSwitchCost // the running thread is blocked or finished: choosing who continues is free by default
 }
 
 // Run explores everything within Bound. Returns false if it was stopped early.
@@ -72,7 +77,7 @@ func (e *Explorer) explore(prefix []int, used int) bool {
 	// suffix took only default choices, so it adds nothing.
 	for i := len(prefix); i < len(r.Choices); i++ {
 		for alt := 1; alt < r.NOpts[i]; alt++ {
-			c := cost(&r, i, alt)
+			c := e.cost(&r, i, alt)
 			if used+c > e.Bound {
 				continue
 			}
